@@ -77,6 +77,7 @@ import (
 	"verif/ref/rtmpref"
 	"verif/ref/rtpref"
 	"verif/ref/rtspref"
+	"verif/ref/sdpref"
 )
 
 // longWait bounds every wait for something lal must do promptly (healthy: milliseconds).
@@ -1289,6 +1290,10 @@ func genPullCase(t *rapid.T) PullCase {
 		case m.inflight:
 			wt["proceed"] = 10
 			wt["pub"] += 2
+			if c.Rtsp {
+				wt["pub"] += 3 // the DESCRIBE answer of an overtaken rtsp pull is the interesting one
+				wt["stop"]++
+			}
 			wt["stop"] += 2
 			wt["tick"]++
 		case m.attached:
@@ -1480,13 +1485,14 @@ func (h *httpAPI) kick(name, id string) int {
 // ---- the world ---------------------------------------------------------------------------------------------
 
 type attempt struct {
-	n       int        // ordinal
-	conn    *Conn      // rtmp origin side
-	rc      *rtspOConn // rtsp origin side
-	started time.Time  // taken before the triggering call: lal's timeout cannot expire before started+timeout
-	outcome int
-	apiID   string // id the API answered for it ("" when it was not started by the API)
-	id      string // id seen in notifications
+	n        int             // ordinal
+	conn     *Conn           // rtmp origin side
+	rc       *rtspOConn      // rtsp origin side
+	recMarks map[*viewer]int // records each RTMP / FLV subscriber had received when the DESCRIBE answer was released
+	started  time.Time       // taken before the triggering call: lal's timeout cannot expire before started+timeout
+	outcome  int
+	apiID    string // id the API answered for it ("" when it was not started by the API)
+	id       string // id seen in notifications
 }
 
 func (at *attempt) close() {
@@ -1769,6 +1775,13 @@ func (w *pullWorld) resolve() *pbt.Violation {
 		return w.attemptEnded(at, "the origin closed after the play / DESCRIBE request")
 	}
 	if at.rc != nil {
+		// what the RTMP / FLV subscribers have received so far (a later check looks only at what comes after the answer)
+		at.recMarks = map[*viewer]int{}
+		for _, vw := range w.subs {
+			if vw.c != nil {
+				at.recMarks[vw] = len(vw.c.Recs())
+			}
+		}
 		if err := at.rc.AnswerDescribe(originSdp()); err != nil {
 			return w.stubTrouble(at, "DESCRIBE answer", err)
 		}
@@ -1814,7 +1827,13 @@ func (w *pullWorld) resolve() *pbt.Violation {
 				}
 				return pbt.V("pull/not-attached", "%s: the origin answered play for attempt %d %v after the trigger (pull timeout %v) while the pull was enabled and the stream had no input, but lal dropped the session %s", w.step, at.n, time.Since(at.started), w.timeout(), stops[len(stops)-1])
 			}
-			return w.attemptEnded(at, "answered play, but the pull may no longer attach")
+			if v := w.attemptEnded(at, "answered play, but the pull may no longer attach"); v != nil || w.abandoned != "" {
+				return v
+			}
+			if at.rc != nil {
+				return w.refusedPullLeftNoTrace(at)
+			}
+			return nil
 		}
 		if pt.over() {
 			if v := w.s.PanicViolation(); v != nil {
@@ -1879,6 +1898,59 @@ func (w *pullWorld) resolve() *pbt.Violation {
 	if oc == ocPlayClose {
 		w.attached.close()
 		return w.sessionClosed("origin-closed")
+	}
+	return nil
+}
+
+// refusedPullLeftNoTrace: an rtsp pull whose DESCRIBE answer arrived after the stream had got another input (or after the
+// pull had been stopped) was refused; the origin's sdp must not have been installed in the stream: an RTSP player that
+// asks now is not told the refused origin's parameter sets, and the accepted input's pipeline was not re-initialised with
+// them (no sequence header carrying them reaches an RTMP / FLV subscriber).
+func (w *pullWorld) refusedPullLeftNoTrace(at *attempt) *pbt.Violation {
+	_, sps0, _ := gen.ParamSets("avc", 0) // what originSdp() describes
+	conn := w.s.RtspConn()
+	if _, err := rtspref.NewClient(conn).WriteRequest("DESCRIBE", "rtsp://127.0.0.1:5544/live/"+w.name, map[string]string{"Accept": "application/sdp"}, nil); err != nil {
+		lalclient.Harness("rtsp describe: %v", err)
+	}
+	conn.WaitPeerIdle(lalclient.IdleTimeout)
+	var raw []byte
+	for k := 0; k < 20; k++ {
+		raw = append(raw, conn.ReadAvailable()...)
+		if bytes.Contains(raw, []byte("\r\n\r\n")) {
+			break
+		}
+		time.Sleep(time.Millisecond)
+	}
+	_ = conn.Close()
+	conn.WaitPeerDone(lalclient.IdleTimeout)
+	if i := bytes.Index(raw, []byte("\r\n\r\n")); i >= 0 && len(raw) > i+4 {
+		if sess, err := sdpref.Parse(raw[i+4:]); err == nil {
+			if tracks, err := sess.Tracks(); err == nil {
+				for _, t := range tracks {
+					for _, n := range t.SPS {
+						if bytes.Equal(n, sps0) {
+							return pbt.V("pull/refused-pull-sdp-installed", "%s: rtsp pull attempt %d was refused when its DESCRIBE answer arrived (publisher present=%v, pull enabled=%v), yet an RTSP player that asks for the stream now is told the refused origin's sdp (sps % x)", w.step, at.n, w.m.pub, w.m.enabled(), n)
+						}
+					}
+				}
+			}
+		}
+	}
+	for i, vw := range w.subs {
+		if vw.c == nil {
+			continue
+		}
+		recs := vw.c.Recs()
+		if n, ok := at.recMarks[vw]; !ok || n > len(recs) {
+			continue
+		} else {
+			recs = recs[n:]
+		}
+		for _, r := range recs {
+			if r.Type == gen.TypeVideo && len(r.Payload) > 5 && r.Payload[0] == 0x17 && r.Payload[1] == 0 && bytes.Contains(r.Payload, sps0) {
+				return pbt.V("pull/refused-pull-sdp-installed", "%s: rtsp pull attempt %d was refused when its DESCRIBE answer arrived, yet subscriber %d (%s) received a video sequence header carrying the refused origin's sps: the accepted input's pipeline was re-initialised with the refused sdp", w.step, at.n, i, vw.kind)
+			}
+		}
 	}
 	return nil
 }
@@ -1950,6 +2022,11 @@ func (w *pullWorld) doAct(a Act) *pbt.Violation {
 				accepted = false // the publish status precedes admission; the refusal is the disconnect
 			}
 			if accepted {
+				// sequence headers (parameter sets other than the scripted RTSP origin's), so that the stream has an sdp
+				_, sps1, pps1 := gen.ParamSets("avc", 1)
+				_ = p.Send(gen.TypeVideo, 0, append([]byte{0x17, 0, 0, 0, 0}, gen.AvcSeqHeaderBody(sps1, pps1)...), 0)
+				_ = p.Send(gen.TypeAudio, 0, append([]byte{0xAF, 0}, gen.Asc(2, 4, 2)...), 0)
+				p.WaitIdle()
 				w.pub = p
 			} else {
 				p.Close()
@@ -1957,7 +2034,7 @@ func (w *pullWorld) doAct(a Act) *pbt.Violation {
 		case "rtsp":
 			conn := s.RtspConn()
 			_ = conn.SetReadDeadline(time.Now().Add(longWait))
-			_, sps, pps := gen.ParamSets("avc", 0)
+			_, sps, pps := gen.ParamSets("avc", 1) // other parameter sets than the scripted RTSP origin's
 			tracks := []rtspref.Track{{Media: "video", PT: 96, Encoding: "H264", ClockRate: 90000, Fmtp: rtspref.H264Fmtp(sps, pps), Control: "streamid=0"}}
 			_, err := rtspref.NewClient(conn).Publish("rtsp://127.0.0.1:5544/live/"+w.name, tracks)
 			_ = conn.SetReadDeadline(time.Time{})
@@ -2360,10 +2437,16 @@ func (s *sim) resolve() {
 		switch {
 		case s.m.pub:
 			s.label("publisher-overtakes-pull")
+			if s.c.Rtsp {
+				s.label("rtsp-pull-refused-at-describe-answer")
+			}
 			s.nt = true
 			s.ended++
 		case !s.m.enabled():
 			s.label("answer-after-api-stop")
+			if s.c.Rtsp {
+				s.label("rtsp-pull-refused-at-describe-answer")
+			}
 			s.ended++
 		case s.inflightOutcome == ocPlayClose:
 			s.label("origin-closes-attached-pull")
